@@ -425,6 +425,24 @@ _run_clauses = run
 def run(prog, rep):
     _run_clauses(prog, rep)
     from plint.wiring import check_zero_init, check_error_contract
+    # the size taken from fstat reaches the handle at full width: no conversion narrower than the size field between st_size and the
+    # store (a 32-bit cast reports a segment of 4 GiB + 8 KiB as 8 KiB to every follower, while its creator sees all of it)
+    _su = prog.unit("pshm-posix.c")
+    _nar = []
+    _nst = 0
+    for _f in _su.functions.values():
+        for (_b, _i, _n) in _f.nodes(elsewhere=True):
+            if _n["k"] == "asg" and strip_casts(_n["l"])["k"] == "member" and strip_casts(_n["l"])["field"] == "size" and any(x["k"] == "member" and x["field"] == "st_size" for x in walk(_n["r"])):
+                _nst += 1
+                _tw = (_su.type_of(strip_casts(_n["l"])) or {}).get("w") or 64
+                for x in walk(_n["r"]):
+                    if x["k"] == "cast":
+                        _t = _su.type_of(x)
+                        if _t and _t.get("k") == "int" and _t.get("w") and _t["w"] < _tw:
+                            _nar.append((_n, _t.get("s")))
+    rep.ob("C07.2", _su.fn("pp_shm_create_handle"), "fstat:width", _nst >= 1 and not _nar, "the size of an existing segment is taken from st_size at full width" if (_nst >= 1 and not _nar) else
+           ("line %d: st_size passes through %s on its way into the handle's size: a segment of 4 GiB or more is reported and mapped modulo 2^32 by every follower" % (line(_nar[0][0]), _nar[0][1])
+            if _nar else "the store of st_size into the size field was not found"), _nar[0][0] if _nar else _su.fn("pp_shm_create_handle").loc[0])
     from plint.wiring import result_tests
     _ru = prog.unit("pshm-posix.c")
     _nrt, _brt = result_tests(_ru)
@@ -441,6 +459,8 @@ def run(prog, rep):
 RENAME_LOCALS = ['src/pshm-posix.c']
 
 SELFTEST = [
+    dict(id="follower-size-through-32-bits", file="src/pshm-posix.c", expect="C07.2",
+         old="\t\tshm->size = (psize) stat_buf.st_size;", new="\t\tshm->size = (puint) stat_buf.st_size;"),
     dict(id="create-handle-reports-success-after-fstat-failure", file="src/pshm-posix.c", expect="C07.2",
          old="\t\t\t\tP_WARNING (\"PShm::pp_shm_create_handle: p_sys_close() failed(1)\");\n\n\t\t\tpp_shm_clean_handle (shm);\n\t\t\treturn FALSE;",
          new="\t\t\t\tP_WARNING (\"PShm::pp_shm_create_handle: p_sys_close() failed(1)\");\n\n\t\t\tpp_shm_clean_handle (shm);\n\t\t\treturn TRUE;"),
